@@ -54,6 +54,8 @@ EXPECT = [
     ('record a security reason code when verifying', ['C12']),
     ('treat a security block whose content cannot be decoded', ['C12']),
     ('do not report a bundle as forwarded when forwarding it failed', ['C19']),
+    ('reject a final XFER_ACK for a transfer whose last segment has not been sent', ['C17']),
+    ('keep the primary block of a received bundle when it is sent as fragments', ['C05']),
     ('restart the BTP-U receive timeout', ['C20']),
     ('send BTP-U frames on the listening socket', ['C20']),
 ]
@@ -98,7 +100,7 @@ def main():
                 continue
             detected = []
             for prop in props:
-                env = dict(os.environ, VERIF_REPO_SRC=os.path.join(wtree, 'src'), VERIF_MIN_BUDGET_S='10')
+                env = dict(os.environ, VERIF_REPO_SRC=os.path.join(wtree, 'src'), VERIF_MIN_BUDGET_S='10', VERIF_OUT_DIR=tmp)
                 proc = subprocess.run([os.path.join(VERIF, 'check'), prop, '--tier', 'quick', '--budget', budget], env=env, capture_output=True, text=True, cwd=VERIF)
                 viol = [line for line in proc.stdout.splitlines() if line.startswith('violation:')]
                 if proc.returncode == 1 and 'VIOLATION property=' in proc.stdout:
